@@ -148,14 +148,14 @@ type TermTable struct {
 	// non-negativity of Int terms, used by a few rewrites (bv2nat(int2bv(t)), abs(t))
 	pathUB     map[*Term]*big.Int
 	pathNonNeg map[*Term]bool
-	IntMode   bool // integer encoding of limb arithmetic: split bv2nat over concatenations
-	rangeVars map[*Term]int // Int variables known to lie in [0, 2^bits)
-	tab   map[termKey]*Term
-	next  int
-	ufs   map[string]*ufSig
-	vars  map[string]*Term
-	True  *Term
-	False *Term
+	IntMode    bool          // integer encoding of limb arithmetic: split bv2nat over concatenations
+	rangeVars  map[*Term]int // Int variables known to lie in [0, 2^bits)
+	tab        map[termKey]*Term
+	next       int
+	ufs        map[string]*ufSig
+	vars       map[string]*Term
+	True       *Term
+	False      *Term
 }
 
 func NewTermTable() *TermTable {
